@@ -366,7 +366,7 @@ func (a *adapter) setupTxs(pos chainPos, ws []want, seq *int) types.Transactions
 func (a *adapter) extend(txs types.Transactions, what string) {
 	blk, invalid, r := a.mine(a.head, txs)
 	if len(invalid) != 0 || len(blk.Txs) != len(txs) {
-		engine.Failf("%s: %d of %d setup transactions packaged, %d invalid", what, len(blk.Txs), len(txs), len(invalid))
+		engine.Realf("%s: %d of %d setup transactions packaged, %d invalid", what, len(blk.Txs), len(txs), len(invalid))
 	}
 	a.head = chainPos{blk, r}
 	a.feed(blk, what)
@@ -374,7 +374,7 @@ func (a *adapter) extend(txs types.Transactions, what string) {
 
 func (a *adapter) feed(blk *types.Block, what string) {
 	if _, err := a.nut.DP.InsertBlock(node.Copy(blk, nil)); err != nil {
-		engine.Failf("%s: the validating node refuses an honest setup block: %v", what, err)
+		engine.Realf("%s: the validating node refuses an honest setup block: %v", what, err)
 	}
 }
 
@@ -825,11 +825,11 @@ func (a *adapter) validate() (engine.Fields, error) {
 		_, twin := p.mk()
 		tb, _, r := a.mine(p.parent, types.Transactions{twin})
 		if len(tb.Txs) != 1 {
-			engine.Failf("the properly signed twin of case %s is not packaged by the miner", p.c.String())
+			engine.Realf("the properly signed twin of case %s is not packaged by the miner", p.c.String())
 		}
 		_, err := a.nut.DP.InsertBlock(node.Copy(tb, nil))
 		if (err == nil) != p.twinValid {
-			engine.Failf("twin block of case %s: validator says %v", p.c.String(), err)
+			engine.Realf("twin block of case %s: validator says %v", p.c.String(), err)
 		}
 		// the dishonest deputy's block: same header roots, the case's transaction in place of the twin
 		caseTx, _ := p.mk()
